@@ -298,6 +298,96 @@ pub fn main(tier: Tier) -> i32 {
             }
         }
     }
+    // (4) the answers of the request path on an advancing channel: whatever number the holder's
+    // counter has reached (and across a restart), a point or secret that is handed out for
+    // commitment n is the one of the key material for n -- never a function of the counter
+    let mut api_answers = 0u64;
+    for (si, seed) in seeds.iter().enumerate() {
+        for (style, sname) in styles.iter() {
+            for restart_at in [None, Some(3u64)] {
+                evaluations += 1;
+                let desc = json!({"part": "request-path", "seed": si, "style": sname, "restart_at_counter": restart_at});
+                let res = catch(|| {
+                    let mut k = new_node(*seed, *style, Network::Regtest);
+                    let (peer, oid) = peer_and_oid(1);
+                    k.node.new_channel(oid, &peer, &k.node).map_err(|e| format!("new_channel: {:?}", e))?;
+                    if !setup(&k, 1, false) {
+                        return Err("setup_channel failed".to_string());
+                    }
+                    let id = chan_id(1);
+                    let mut bad: Vec<(String, String)> = vec![];
+                    let mut answers = 0u64;
+                    for n in 0..6u64 {
+                        if restart_at == Some(n) {
+                            k = restart(k);
+                        }
+                        // raw key material
+                        let (raw_points, raw_secrets, params) = {
+                            let slot = k.node.get_channel(&id).map_err(|_| "channel missing".to_string())?;
+                            let g = slot.lock().unwrap();
+                            let c = match &*g {
+                                ChannelSlot::Ready(c) => c,
+                                ChannelSlot::Stub(_) => return Err("channel is a stub".into()),
+                            };
+                            let pts: Vec<PublicKey> = (0..10u64).map(|m| c.keys.get_per_commitment_point(INITIAL_COMMITMENT_NUMBER - m, &secp()).unwrap()).collect();
+                            let secs: Vec<[u8; 32]> = (0..10u64).map(|m| c.keys.release_commitment_secret(INITIAL_COMMITMENT_NUMBER - m).unwrap()).collect();
+                            (pts, secs, ChanParams { setup: c.setup.clone(), holder_pubkeys: c.keys.pubkeys().clone() })
+                        };
+                        // holder commitment n is counter-signed and accepted (n > 0: n-1 is revoked)
+                        let cp = Cp::new(100);
+                        let content = Content { to_holder: params.setup.channel_value_sat - 2_000, to_cp: 0, feerate: 1000, out: vec![], inc: vec![] };
+                        let (sig, hs) = params.cp_sign_holder_commitment(&cp, n, &raw_points[n as usize], &content);
+                        let r = k.node.with_channel(&id, |c| {
+                            c.validate_holder_commitment_tx_phase2(n, content.feerate, content.to_holder, content.to_cp, content.out_info(), content.inc_info(), &sig, &hs)?;
+                            if n == 0 {
+                                c.activate_initial_commitment().map(|_| ())
+                            } else {
+                                c.revoke_previous_holder_commitment(n).map(|_| ())
+                            }
+                        });
+                        if let Err(e) = r {
+                            return Err(format!("advance to commitment {} refused: {:?}", n, e));
+                        }
+                        // every number the request path answers for
+                        for m in 0..9u64 {
+                            if let Ok(p) = k.node.with_channel_base(&id, |b| b.get_per_commitment_point(m)) {
+                                answers += 1;
+                                if p != raw_points[m as usize] {
+                                    bad.push((format!("C18:request-path:point-depends-on-counter:{}", sname), format!("with holder commitment {} current, get_per_commitment_point({}) is not the point of commitment {}", n, m, m)));
+                                }
+                            }
+                            if let Ok(sec) = k.node.with_channel_base(&id, |b| b.get_per_commitment_secret(m)) {
+                                answers += 1;
+                                if sec.secret_bytes() != raw_secrets[m as usize] {
+                                    bad.push((format!("C18:request-path:secret-depends-on-counter:{}", sname), format!("with holder commitment {} current, get_per_commitment_secret({}) is not the secret of commitment {}", n, m, m)));
+                                }
+                            }
+                            if let Ok(Some(sec)) = k.node.with_channel_base(&id, |b| Ok(b.get_per_commitment_secret_or_none(m))) {
+                                answers += 1;
+                                if sec.secret_bytes() != raw_secrets[m as usize] {
+                                    bad.push((format!("C18:request-path:secret-depends-on-counter:{}", sname), format!("with holder commitment {} current, get_per_commitment_secret_or_none({}) is not the secret of commitment {}", n, m, m)));
+                                }
+                            }
+                        }
+                    }
+                    Ok((bad, answers))
+                });
+                match res {
+                    Ok(Ok((bad, answers))) => {
+                        api_answers += answers;
+                        for (k, w) in bad {
+                            run.violation(&k, &w, desc.clone());
+                        }
+                    }
+                    Ok(Err(e)) => run.violation("C18:machinery", &e, desc.clone()),
+                    Err(p) => run.violation("C18:panic", &format!("panicked: {} at {}", p, last_panic_loc()), desc.clone()),
+                }
+            }
+        }
+    }
+    if api_answers == 0 {
+        run.vacuous("the request path answered no point / secret request on the advancing channel");
+    }
     // (2) pairwise distinct keys for different (seed, style, network, id)
     let fields = ["funding", "revocation", "payment", "delayed", "htlc"];
     let entries: Vec<_> = canon.iter().collect();
@@ -336,6 +426,7 @@ pub fn main(tier: Tier) -> i32 {
         "samples": samples,
         "exhaustive": true,
         "canonical_entries": canon.len(),
+        "request_path_answers_compared": api_answers,
     });
     run.finish(cov)
 }
